@@ -236,7 +236,20 @@ theorem c01_fin_progress (id : Nat) (ops : List Op) (hw : WF (init id) ops)
      MAX_STREAM_DATA updates from the peer: C06/C07/C08/C13);
    * that an ACKED frame was really processed by the peer (ACK honesty, C12);
    * packet protection across key updates (a packet that cannot be decrypted is
-     a dropped one).
+     a dropped one) — the key bookkeeping itself is proved in AQ.Props.C01Keys;
+   * PATH VALIDATION AFTER AN APPARENT MIGRATION IS OUTSIDE THE MODEL: the model
+     has no network paths, no anti-amplification budget and no PATH_CHALLENGE /
+     PATH_RESPONSE.  `emit` takes the builder space as an input, so "the stream
+     is eventually served with enough space" is a hypothesis — and it is FALSE
+     in the current code in one situation (recorded finding
+     C01-rebind-challenge-lost, found by the oracle of checks/c01.py): after a
+     client address change seen on one datagram the server's current path is
+     unvalidated; once its 3x budget is used up and the (never retransmitted)
+     PATH_CHALLENGE is lost, `remaining_flight_space` stays below every frame
+     header forever unless the client happens to send.  No quirk flag /
+     counterexample theorem exists for it because the defect lives entirely in
+     the part that is an input of this model; the check classifies such runs by
+     the trigger predicate `rebind_starved`.
    These are exercised by the oracle of checks/c01.py (fair phase after the
    adversarial phase), not proved. -/
 
